@@ -25,7 +25,9 @@ for n in names:
             if not (os.path.exists(V + "/harness/props/%s.py" % c.lower()) and os.path.exists(V + "/coq/Props/%s.v" % c)):
                 r[c] = "check not built"
                 continue
-            p = subprocess.run([V + "/check", c, "--tier", "quick"], capture_output=True, text=True, cwd=V)
+            env = dict(os.environ)
+            env["VERIF_EVIDENCE_DIR"] = V + "/_build/seeded_evidence"
+            p = subprocess.run([V + "/check", c, "--tier", "quick"], capture_output=True, text=True, cwd=V, env=env)
             vio = [l for l in p.stdout.splitlines() if l.startswith("VIOLATION")]
             r[c] = {"exit": p.returncode, "violation": vio[0] if vio else None}
             for l in vio:
